@@ -55,7 +55,8 @@ def opPrec (j : Json) : Except String Json := do
   let i := invert true e
   pure <| jobj [("wp", jarr ((List.range 11).map fun m => jbool (WP m e))), ("render", jstr (render e)),
                 ("rhs_ok", jbool (WPrhs e)), ("and_folds", jbool (andFolds e)), ("combine", encE c), ("combine_wp0", jbool (WP 0 c)), ("combine_old", encE (combine false e)),
-                ("invert", encE i), ("invert_wp0", jbool (WP 0 i)), ("invert_old", encE (invert false e)), ("invert_raises", jbool (invertRaises e))]
+                ("invert", encE i), ("invert_wp0", jbool (WP 0 i)), ("invert_old", encE (invert false e)), ("invert_raises", jbool (invertRaises e)),
+                ("invert_shallow", encE (invertShallow e)), ("nf_combine", jbool (NF e)), ("nf_invert", jbool (NFi e))]
 
 /-- `prec_walrus`: the new `if` test for `n = value` followed by a test of one of the three shapes -/
 def opPrecWalrus (j : Json) : Except String Json := do
